@@ -107,7 +107,17 @@ def classify(trace, info):
     line = info.get("line_in_trace") or len(trace)
     pre = trace[:line]
     kind = ev.get("ev")
-    if kind in ("Advance", "ConnRead", "Srd", "WriteRet", "Start", "Deliver"):
+    armed, owed = "none", False
+    for e in pre:
+        if e["ev"] == "Srd":
+            armed = e["kind"]
+        elif e["ev"] == "Start":
+            owed = True
+        elif e["ev"] == "Deliver":
+            owed = False
+    if kind in ("Advance", "ConnRead", "Srd", "WriteRet", "Start", "Deliver") or (
+            kind in ("ExchangeEnd", "Cancel", "Stuck") and owed and armed != "waiting"
+            and not any(e["ev"] == "Timeout" for e in pre)):
         ended, unmatched = set(), False
         last_w = last_i = -1
         for i, e in enumerate(pre):
